@@ -32,6 +32,7 @@ import (
 	"os"
 	"os/exec"
 	"path/filepath"
+	"reflect"
 	"runtime"
 	"strconv"
 	"strings"
@@ -236,6 +237,8 @@ type mwRec struct {
 	depth  int // nesting depth of the real adapters (runaway recursion guard)
 	// the scripted transport saw a deadline on its context (kmipclient.TimeoutMiddleware upstream)
 	sawDeadline bool
+	// server stages: what a stage's OWN context reported changed while the stage was running (first cases)
+	ctxDrift []string
 }
 
 // enter / leave guard the real adapters against a chain that recurses without end (a stack overflow
@@ -685,6 +688,63 @@ func mwRecOf(ctx context.Context) *mwRec {
 	return rec
 }
 
+// mwCtxView: what the library's accessors report on a server stage's OWN context — the request header
+// (GetRequestHeader; GetProtocolVersion is its ProtocolVersion field, read separately). A stage keeps
+// "the context passed on by its predecessor" (C19): whatever the inner stages and the core handler do
+// — execute another message, execute several — must not show through the context value this stage
+// was given. The ID placeholder is NOT part of the view: the items of one batch share it by design.
+type mwCtxView struct {
+	ok  bool // in a batch context
+	hdr kmip.RequestHeader
+	ver kmip.ProtocolVersion
+}
+
+func mwViewCtx(ctx context.Context) (v mwCtxView) {
+	defer func() {
+		if recover() != nil {
+			v = mwCtxView{}
+		}
+	}()
+	return mwCtxView{ok: true, hdr: kmipserver.GetRequestHeader(ctx), ver: kmipserver.GetProtocolVersion(ctx)}
+}
+
+func (v mwCtxView) String() string {
+	if !v.ok {
+		return "(no batch context)"
+	}
+	return fmt.Sprintf("{header marker %q, header version %d.%d, batch count %d, GetProtocolVersion %d.%d}", v.hdr.ClientCorrelationValue,
+		v.hdr.ProtocolVersion.ProtocolVersionMajor, v.hdr.ProtocolVersion.ProtocolVersionMinor, v.hdr.BatchCount, v.ver.ProtocolVersionMajor, v.ver.ProtocolVersionMinor)
+}
+
+// mwCtxWatch compares the view of a stage's own context with the one taken when the stage was entered.
+type mwCtxWatch struct {
+	on    bool
+	rec   *mwRec
+	st    *mwStage
+	ctx   context.Context
+	first mwCtxView
+}
+
+func mwWatchCtx(rec *mwRec, st *mwStage, ctx context.Context) *mwCtxWatch {
+	w := &mwCtxWatch{on: rec.cs.kind != "client", rec: rec, st: st, ctx: ctx}
+	if w.on {
+		w.first = mwViewCtx(ctx)
+	}
+	return w
+}
+
+func (w *mwCtxWatch) check(when string, n int) {
+	if !w.on || len(w.rec.ctxDrift) >= 2 {
+		return
+	}
+	if now := mwViewCtx(w.ctx); !reflect.DeepEqual(now, w.first) {
+		if n >= 0 {
+			when += " " + strconv.Itoa(n)
+		}
+		w.rec.ctxDrift = append(w.rec.ctxDrift, fmt.Sprintf("stage %d, %s: the accessors on the context this stage RECEIVED now report %s; when the stage was entered they reported %s", w.st.id, when, now, w.first))
+	}
+}
+
 func mwAtoi(s string) int {
 	v, err := strconv.Atoi(s)
 	if err != nil {
@@ -891,9 +951,14 @@ func mwMsgStage(st *mwStage, next mwMsgNext, ctx context.Context, msg *kmip.Requ
 	defer rec.leave()
 	m, c := mwReqMsg(msg, rec), mwCtxTok(ctx)
 	rec.log(mwEvent{k: 'E', id: st.id, m: m, c: c})
+	watch := mwWatchCtx(rec, st, ctx)
+	defer watch.check("when it returns", -1)
 	var lastResp *kmip.ResponseMessage
 	var lastErr error
+	ncalls := 0
 	rt, _ := mwInterp(st, m, c, rec, func(m2 mwMsg, c2 int) mwR {
+		ncalls++
+		defer watch.check("after its call of next returned, call no.", ncalls)
 		msg2, ctx2 := msg, ctx
 		if m2 != m {
 			msg2 = mwMkReq(m2) // never mutate the received message: build a new one
@@ -932,9 +997,14 @@ func mwItemStage(st *mwStage, next kmipserver.BatchItemNext, ctx context.Context
 	defer rec.leave()
 	m, c := mwItemReqMsg(bi, rec), mwCtxTok(ctx)
 	rec.log(mwEvent{k: 'E', id: st.id, m: m, c: c})
+	watch := mwWatchCtx(rec, st, ctx)
+	defer watch.check("when it returns", -1)
 	var lastResp *kmip.ResponseBatchItem
 	var lastErr error
+	ncalls := 0
 	rt, _ := mwInterp(st, m, c, rec, func(m2 mwMsg, c2 int) mwR {
+		ncalls++
+		defer watch.check("after its call of next returned, call no.", ncalls)
 		bi2, ctx2 := bi, ctx
 		if m2 != m {
 			bi2 = mwMkItemReq(m2) // a new item: operation AND payload type of m2
@@ -1940,6 +2010,11 @@ func mwOracle(ctx *Ctx, cs *mwCase, line, answer string, rec *mwRec, finals []mw
 	}
 	for _, n := range rec.notes {
 		viol("message-integrity", "inconsistent-message", n)
+	}
+	// 0. a stage keeps the context it was given: what the accessors report on it does not change while
+	//    the inner stages / the core handler run (impl-side only: contexts are immutable values in the model)
+	for _, d := range rec.ctxDrift {
+		viol("stage-context-stable", "stage-context-rewritten-by-inner-stages", d)
 	}
 	// 1. nested composition predicts result and trace
 	wantR, wantEv, _ := mwReference(cs, 0)
